@@ -269,6 +269,10 @@ class _FaultyFile:
         self._f, self._mode, self._o = real, mode, owner
 
     def write(self, data):
+        if self._mode == "at_close":
+            # a buffered write: nothing reaches the disk until the file is flushed / closed
+            self.__dict__.setdefault("_buffered", []).append(data)
+            return len(data)
         if self._mode == "before_write":
             self._o.fired = True
             raise InjectedFault(28, "injected ENOSPC before first write")
@@ -280,12 +284,36 @@ class _FaultyFile:
             raise InjectedFault(28, "injected ENOSPC mid write")
         return self._f.write(data)
 
+    def fileno(self):
+        # zero-copy writers (shutil's sendfile path) ask for the descriptor instead of calling write():
+        # the fault strikes there (the file has been opened -- and truncated -- but nothing has arrived)
+        self._o.fired = True
+        if getattr(self._o, "crash", False):
+            os._exit(137)
+        raise InjectedFault(28, "injected ENOSPC at the first descriptor-level write")
+
     def __enter__(self):
         return self
 
     def __exit__(self, *a):
-        self._f.close()
+        self.close()
         return False
+
+    def flush(self):
+        if self._mode == "at_close":
+            self._fail_at_close()
+        return self._f.flush()
+
+    def close(self):
+        if self._mode == "at_close" and not self._f.closed:
+            self._fail_at_close()
+        return self._f.close()
+
+    def _fail_at_close(self):
+        # the deferred write fails (disk full, quota, ...): the buffered data never arrives
+        self._f.close()
+        self._o.fired = True
+        raise InjectedFault(28, "injected ENOSPC at flush/close")
 
     def __getattr__(self, k):
         return getattr(self._f, k)
@@ -293,7 +321,7 @@ class _FaultyFile:
 
 class FailOpen:
     """Replacement for `open` bound into doctrans modules.  Counts write-mode opens; at the
-    k-th one injects `mode` in {"before_open","before_write","mid_write"}; with
+    k-th one injects `mode` in {"before_open","before_write","mid_write","at_close"}; with
     `crash=True` calls os._exit(137) instead of raising (subprocess mode)."""
 
     def __init__(self, k=None, mode=None, crash=False, root=None):
@@ -323,7 +351,12 @@ class FailOpen:
 
 
 class _CrashFile(_FaultyFile):
+    def _fail_at_close(self):
+        os._exit(137)
+
     def write(self, data):
+        if self._mode == "at_close":
+            return len(data)  # still in the buffer when the process dies
         if self._mode == "before_write":
             os._exit(137)
         half = data[: max(1, len(data) // 2)]
